@@ -188,17 +188,83 @@ class C06(Property):
             if small and n < 50:
                 n, grid = rng.choice([(100, 1), (100, 5), (1000, 10), (100000, 1000)])
             locs = [self.rand_area(rng, n, circ, grid, small=small) for _ in range(k + (2 if small else 0))]
+        if locs and rng.random() < 0.35:
+            # areas sharing their coordinates (the same stretch annotated twice)
+            for _ in range(rng.choice([1, 1, 2])):
+                locs.insert(rng.randrange(len(locs) + 1), rng.choice(locs))
+        same_kind = rng.random() < 0.3
+        first_sub = rng.random() < 0.5
         for loc in locs:
-            if rng.random() < 0.5:
+            if (first_sub if same_kind else rng.random() < 0.5):
                 ops.append(["addSub", loc])
             else:
                 ops.append(["addProto", loc, self.core_of(rng, loc)])
         if any(o[0] == "addProto" for o in ops):
             ops.append(["createCands"])
         ops.append(["createRegions"])
+        cds = self.rand_cds(rng, n)
+        if rng.random() < 0.4:
+            ops.append(["roundtrip"])
+            cds = []
+            if n > 2000:
+                n, grid = 1000, max(1, grid // 100)
+                ops = [self._clip(op, 1000) for op in ops]
         for _ in range(rng.choice([0, 0, 1, 2, 3])):
             ops.append(self.rand_op(rng, n, circ, grid, late=True))
-        return {"len": n, "circ": circ, "cds": self.rand_cds(rng, n), "ops": ops[:12]}
+        return {"len": n, "circ": circ, "cds": cds, "ops": ops[:14]}
+
+    @staticmethod
+    def _clip(op: List[Any], n: int) -> List[Any]:
+        """scale the locations of an op from a record of 100000 down to one of 1000"""
+        def scale(loc: Dict[str, Any]) -> Dict[str, Any]:
+            parts = [[p[0] // 100, max(p[0] // 100 + 1, p[1] // 100), p[2]] for p in loc["parts"]]
+            if loc["c"] and parts[1][1] > parts[0][0]:
+                return {"c": False, "parts": [[0, n, 1]]}
+            return {"c": loc["c"], "parts": parts}
+        if op[0] == "addSub":
+            return ["addSub", scale(op[1])]
+        if op[0] == "addProto":
+            loc = scale(op[1])
+            lo, hi = loc["parts"][0][0], loc["parts"][0][1]
+            return ["addProto", loc, {"c": False, "parts": [[lo, min(hi, lo + 1), 1]]}]
+        return op
+
+    def clear_case(self, rng: random.Random) -> Dict[str, Any]:
+        """regions exist, then clears / explicit-list creations / re-creations in any order while every area
+           ever constructed stays referenced (the dump follows the parent links of all of them)"""
+        n, grid = rng.choice([(12, 1), (20, 2), (50, 5), (100, 1), (100, 10), (1000, 50)])
+        circ = rng.random() < 0.5
+        small = rng.random() < 0.7
+        ops: List[List[Any]] = []
+        for _ in range(rng.choice([2, 3, 4, 5])):
+            loc = self.rand_area(rng, n, circ, grid, full=0.0, small=small and n >= 50)
+            if rng.random() < 0.5:
+                ops.append(["addSub", loc])
+            else:
+                ops.append(["addProto", loc, self.core_of(rng, loc)])
+        if any(o[0] == "addProto" for o in ops):
+            ops.append(["createCands"])
+            if rng.random() < 0.3:
+                ops.append(["mkCandOnly", [rng.randrange(0, 6) for _ in range(rng.choice([1, 2]))]])
+        ops.append(["createRegions"] if rng.random() < 0.7 else
+                   ["createRegionsWith", [rng.randrange(0, 6) for _ in range(rng.choice([0, 1, 2]))],
+                    [rng.randrange(0, 6) for _ in range(rng.choice([0, 1, 2]))]])
+        for _ in range(rng.choice([1, 2, 3, 4, 5])):
+            r = rng.random()
+            if r < 0.5:
+                ops.append([rng.choice(CLEARS)])
+            elif r < 0.62:
+                ops.append(["createRegions"])
+            elif r < 0.74:
+                ops.append(["createRegionsWith", [rng.randrange(0, 6) for _ in range(rng.choice([0, 1, 2]))],
+                            [rng.randrange(0, 6) for _ in range(rng.choice([0, 1, 2]))]])
+            elif r < 0.8:
+                ops.append(["addPool", rng.randrange(0, 4)])
+            elif r < 0.88:
+                ops.append(["roundtrip"])
+            else:
+                ops.append(self.rand_op(rng, n, circ, grid, late=True))
+        return {"len": n, "circ": circ, "cds": [], "ops": ops}
 
     def rand_op(self, rng: random.Random, n: int, circ: bool, grid: int, late: bool = False) -> List[Any]:
         r = rng.random()
@@ -216,6 +282,13 @@ class C06(Property):
         if r < 0.85:
             return ["addRegion", [rng.randrange(0, 6) for _ in range(rng.choice([0, 1, 1, 2]))],
                     [rng.randrange(0, 6) for _ in range(rng.choice([0, 1, 1]))]]
+        if r < 0.88:
+            return ["mkCandOnly", [rng.randrange(0, 6) for _ in range(rng.choice([1, 2]))]]
+        if r < 0.9:
+            return ["addPool", rng.randrange(0, 4)]
+        if r < 0.93:
+            return ["createRegionsWith", [rng.randrange(0, 6) for _ in range(rng.choice([0, 1, 2]))],
+                    [rng.randrange(0, 6) for _ in range(rng.choice([0, 1, 2]))]]
         return [rng.choice(CLEARS)]
 
     def history_case(self, rng: random.Random) -> Dict[str, Any]:
@@ -281,7 +354,8 @@ class C06(Property):
         pool: List[List[Any]] = [["addSub", simple(2, 6)], ["addSub", crossing(10, 12, 2)], ["addSub", simple(4, 11)],
                                  ["addProto", simple(0, 4), simple(1, 2)], ["addProto", simple(8, 12), simple(9, 10)],
                                  ["createCands"], ["createRegions"], ["clearProtos"], ["clearCands"], ["clearSubs"],
-                                 ["clearRegions"], ["addRegion", [0], [0]]]
+                                 ["clearRegions"], ["addRegion", [0], [0]], ["createRegionsWith", [0], [1]],
+                                 ["addSub", simple(2, 6)], ["roundtrip"]]
         depth = 4 if full else 3
         for length in range(1, depth + 2):
             if length == depth + 1:
@@ -292,7 +366,8 @@ class C06(Property):
             if not full and len(orders) > 800:
                 orders = rng.sample(orders, 800)
             for order in orders:
-                yield {"len": n, "circ": True, "cds": [simple(3, 5)], "ops": [pool[i] for i in order]}
+                ops = [pool[i] for i in order]
+                yield {"len": n, "circ": True, "cds": [] if ["roundtrip"] in ops else [simple(3, 5)], "ops": ops}
 
     def cases(self, rng: random.Random, tier: str, deep: bool) -> Iterator[Dict[str, Any]]:
         total = 0
@@ -304,8 +379,10 @@ class C06(Property):
         budget = 40000 if deep else 3000
         for i in range(budget):
             r = i % 10
-            if r < 6:
+            if r < 5:
                 yield self.layout_case(rng)
+            elif r < 6:
+                yield self.clear_case(rng)
             elif r < 8:
                 yield self.history_case(rng)
             elif r < 9:
@@ -333,8 +410,95 @@ class C06(Property):
         wrap = n if case["circ"] else None
         groups: List[Dict[str, Any]] = []
 
+        pool: List[Any] = []     # candidate clusters constructed by "mkCandOnly", not (yet) in the record
+
         def pick(seq: Tuple[Any, ...], positions: List[int]) -> List[Any]:
             return [seq[p % len(seq)] for p in positions] if seq else []
+
+        def dedupe(items: List[Any]) -> List[Any]:
+            out: List[Any] = []
+            for item in items:
+                if not any(item is o for o in out):
+                    out.append(item)
+            return out
+
+        def live_parent(area: Any) -> Any:
+            """None: no parent; 1: the parent is a region / candidate cluster of the record that lists the area;
+               -1: anything else (a stale link)"""
+            parent = area.parent
+            if parent is None:
+                return None
+            if any(parent is r for r in rec.get_regions()):
+                return 1 if any(area is c for c in tuple(parent.candidate_clusters) + tuple(parent.subregions)) else -1
+            if any(parent is c for c in rec.get_candidate_clusters()):
+                return 1 if any(area is p for p in parent.protoclusters) else -1
+            if any(parent is c for c in pool):
+                # a candidate cluster the history constructed on purpose without storing it
+                return 2 if any(area is p for p in parent.protoclusters) else -1
+            return -1
+
+        def root_ok(area: Any) -> bool:
+            """get_root() of every held area is the area itself or ends at a live member of the record"""
+            node, steps = area, 0
+            while node.parent is not None and steps < 5:
+                node, steps = node.parent, steps + 1
+                if not (any(node is r for r in rec.get_regions()) or any(node is c for c in rec.get_candidate_clusters())
+                        or any(node is c for c in pool)):
+                    return False
+            return area.get_root() is node
+
+        def roundtrip() -> List[str]:
+            """numbers written on the features identify the same features after to_biopython -> from_biopython"""
+            from antismash.common.secmet.record import Record as RealRecord
+            problems: List[str] = []
+            # only a self-contained record can be written: regions made of areas that are not stored in it cannot
+            for region in rec.get_regions():
+                for child in region.candidate_clusters:
+                    if not any(child is c for c in rec.get_candidate_clusters()):
+                        return problems
+                for child in region.subregions:
+                    if not any(child is x for x in rec.get_subregions()):
+                        return problems
+            for cand in rec.get_candidate_clusters():
+                for child in cand.protoclusters:
+                    if not any(child is p for p in rec.get_protoclusters()):
+                        return problems
+            try:
+                bio = rec.to_biopython()
+                protos_w: Dict[int, str] = {}
+                subs_w: Dict[int, str] = {}
+                cands_w: Dict[int, Any] = {}
+                regions_w: Dict[int, Any] = {}
+                for feat in bio.features:
+                    q = feat.qualifiers
+                    if feat.type == "protocluster":
+                        protos_w[int(q["protocluster_number"][0])] = q["product"][0]
+                    elif feat.type == "subregion":
+                        subs_w[int(q["subregion_number"][0])] = q["label"][0]
+                for feat in bio.features:
+                    q = feat.qualifiers
+                    if feat.type == "cand_cluster":
+                        cands_w[int(q["candidate_cluster_number"][0])] = tuple(protos_w.get(int(x)) for x in q["protoclusters"])
+                for feat in bio.features:
+                    q = feat.qualifiers
+                    if feat.type == "region":
+                        regions_w[int(q["region_number"][0])] = (
+                            sorted(cands_w.get(int(x), ()) for x in q.get("candidate_cluster_numbers", [])),
+                            sorted(subs_w.get(int(x), "?") for x in q.get("subregion_numbers", [])))
+                again = RealRecord.from_biopython(bio, taxon="bacteria")
+                protos_r = {p.get_protocluster_number(): p.product for p in again.get_protoclusters()}
+                subs_r = {x.get_subregion_number(): x.label for x in again.get_subregions()}
+                cands_r = {c.get_candidate_cluster_number(): tuple(p.product for p in c.protoclusters)
+                           for c in again.get_candidate_clusters()}
+                regions_r = {r.get_region_number(): (sorted(tuple(p.product for p in c.protoclusters) for c in r.candidate_clusters),
+                                                     sorted(x.label for x in r.subregions)) for r in again.get_regions()}
+                for name, written, read in (("protocluster", protos_w, protos_r), ("subregion", subs_w, subs_r),
+                                            ("candidate cluster", cands_w, cands_r), ("region", regions_w, regions_r)):
+                    if written != read:
+                        problems.append(f"{name} numbers written {written} identify {read} after reading back")
+            except Exception as exc:  # pylint: disable=broad-except
+                problems.append(f"write/read round trip failed: {type(exc).__name__}: {str(exc)[:150]}")
+            return problems
 
         def region_number(region: Any) -> Any:
             for i, r in enumerate(rec.get_regions()):
@@ -364,7 +528,8 @@ class C06(Property):
             for p in rec.get_protoclusters():
                 parent: Any = None
                 if p.parent is not None:
-                    parent = ids.get(p.parent) if any(p.parent is c for c in cands) else -1
+                    parent = (ids.get(p.parent) if any(p.parent is c for c in cands)
+                              else (-2 if any(p.parent is c for c in pool) else -1))
                 protos.append([ids.get(p), number(rec.get_protocluster_number, p, rec.get_protocluster),
                                common.location_json(p.location), parent])
             cand_rows = [[ids.get(c), number(rec.get_candidate_cluster_number, c, rec.get_candidate_cluster),
@@ -378,7 +543,9 @@ class C06(Property):
                             sorted(i for i, cds in enumerate(cdses) if cds in r.cds_children)]
                            for r in rec.get_regions()]
             cds_rows = [None if cds.region is None else region_number(cds.region) for cds in cdses]
+            held = [[ids.get(a), live_parent(a)] for a in ids.keep]
             return {"protos": protos, "cands": cand_rows, "subs": sub_rows, "regions": region_rows, "cds": cds_rows,
+                    "held": held, "roots_ok": all(root_ok(a) for a in ids.keep),
                     "lookup_ok": lookup_ok, "region_parents": [r.parent is None for r in rec.get_regions()]}
 
         logging.disable(logging.CRITICAL)
@@ -390,12 +557,13 @@ class C06(Property):
                     if kind == "addProto":
                         prim.append(["addProto", op[1]])
                         proto = Protocluster(common.make_location(op[2]), common.make_location(op[1]), tool="t",
-                                             product="p", cutoff=1, neighbourhood_range=0, detection_rule="r")
+                                             product=f"p{len(ids.ids)}", cutoff=1, neighbourhood_range=0,
+                                             detection_rule="r")
                         ids.new(proto)
                         rec.add_protocluster(proto)
                     elif kind == "addSub":
                         prim.append(["addSub", op[1]])
-                        sub = SubRegion(common.make_location(op[1]), tool="t")
+                        sub = SubRegion(common.make_location(op[1]), tool="t", label=f"s{len(ids.ids)}")
                         ids.new(sub)
                         rec.add_subregion(sub)
                     elif kind == "addCand":
@@ -406,6 +574,30 @@ class C06(Property):
                         cand = CandidateCluster(CandidateCluster.kinds.NEIGHBOURING, members, circular_wrap_point=wrap)
                         prim.append(["addCand", ids.new(cand)])
                         rec.add_candidate_cluster(cand)
+                    elif kind == "mkCandOnly":
+                        # a candidate cluster that is constructed but not stored in the record
+                        members = pick(rec.get_protoclusters(), op[1])
+                        if not members:
+                            continue
+                        prim.append(["mkCand", [ids.get(p) for p in members]])
+                        cand = CandidateCluster(CandidateCluster.kinds.NEIGHBOURING, members, circular_wrap_point=wrap)
+                        ids.new(cand)
+                        pool.append(cand)
+                    elif kind == "addPool":
+                        if not pool:
+                            continue
+                        cand = pool.pop(op[1] % len(pool))
+                        prim.append(["addCand", ids.get(cand)])
+                        rec.add_candidate_cluster(cand)
+                    elif kind == "createRegionsWith":
+                        cs = dedupe(pick(tuple(rec.get_candidate_clusters()) + tuple(pool), op[1]))
+                        ss = dedupe(pick(rec.get_subregions(), op[2]))
+                        prim.append(["createRegionsWith", [ids.get(c) for c in cs], [ids.get(x) for x in ss]])
+                        rec.create_regions(candidate_clusters=cs, subregions=ss)
+                    elif kind == "roundtrip":
+                        if n > 2000 or cdses:
+                            continue
+                        rt_problems = roundtrip()
                     elif kind == "createCands":
                         orig_init = cand_structures.CandidateCluster.__init__
                         orig_add = Record.add_candidate_cluster
@@ -463,7 +655,10 @@ class C06(Property):
                 except Exception as exc:  # pylint: disable=broad-except
                     groups.append({"op": op[0], "ops": prim, "impl": {"err": err_kind(exc), "msg": str(exc)[:200]}})
                     break
-                groups.append({"op": op[0], "ops": prim, "impl": dump()})
+                state = dump()
+                if kind == "roundtrip":
+                    state["rt"] = rt_problems
+                groups.append({"op": op[0], "ops": prim, "impl": state})
         finally:
             logging.disable(logging.NOTSET)
         return {"groups": groups}
@@ -475,7 +670,7 @@ class C06(Property):
                 "groups": [{"ops": g["ops"], "impl": g["impl"]} for g in obs["groups"]]}
 
     # ------------------------------------------------------------------ judge
-    MODEL_KEYS = ("protos", "cands", "subs", "regions", "cds")
+    MODEL_KEYS = ("protos", "cands", "subs", "regions", "cds", "held")
 
     KF_ORDER = "KF-C06-full-record-order"
     KF_HALF = "KF-C06-half-record-component"
@@ -526,6 +721,13 @@ class C06(Property):
                 problems.append("get_X(get_X_number(x)) is not x")
             if any(row[3] == -1 for row in impl["protos"] + impl["cands"] + impl["subs"]):
                 problems.append("stale parent link")
+            if any(row[1] == -1 for row in impl["held"]):
+                problems.append("stale parent link on an area that is held outside the record's lists")
+            if not impl["roots_ok"]:
+                problems.append("get_root() of a held area leaves the record")
+            if impl.get("rt"):
+                problems.append("; ".join(impl["rt"]))
+                order_failed = True      # inside the full-record class the order depends on the insertion order
             if any(v == -1 for v in impl["cds"]):
                 problems.append("stale cds.region link")
             if not all(impl["region_parents"]):
